@@ -44,6 +44,23 @@ def static_digest():
     return h.hexdigest()
 
 
+def gen_many_names_history(rnd):
+    """~150 distinct names live in a default-size table, steady evictions, mid-table fields re-sent: what a
+    per-table hash-bucket filter or any hash-ordered structure needs in order to show"""
+    ops = []
+    names = ['x-h%03d' % i for i in range(150)]
+    for rnd_i in range(3):
+        order = names[:]
+        rnd.shuffle(order)
+        for i in range(0, len(order), 10):
+            ops.append(('list', [('2', n, 'v%d' % (len(n) + rnd_i)) for n in order[i:i + 10]], False))
+            if i % 30 == 0:
+                back = order[max(i - 40, 0):max(i - 35, 0)]
+                if back:
+                    ops.append(('list', [('2', n, 'v%d' % (len(n) + rnd_i)) for n in back], False))
+    return ops
+
+
 def gen_pair_history(rnd):
     """list of ops for one encoder/decoder pair"""
     ops = []
@@ -133,6 +150,8 @@ def main():
     seed, n, mode = int(sys.argv[1]), int(sys.argv[2]), sys.argv[3]
     rnd = random.Random(seed)
     hist = [gen_pair_history(rnd) for _ in range(n)]
+    if n >= 2:
+        hist[-1] = gen_many_names_history(rnd)
     before = static_digest()
     if mode == 'debuglog':
         lg = logging.getLogger('hpack')
